@@ -146,16 +146,15 @@ def ADecOf (d : Nat) (p : Layout × Mat) (a : ADec) : Prop :=
       Forall₂ (Forall₂ (ReadOf d p.2.cplx)) (p.2.cols.map (decCol p.1 p.2.cplx)) XA
 
 /-- the hypotheses on one matrix: sizes that fit the 8-character fields, a valid name, the nonbigmat
-layout only below 65536 rows, and every value fits its field (finding F3 excluded) -/
-def MatOK (d : Nat) (p : Layout × Mat) : Prop :=
-  WfA p.2 ∧ (p.1 = .nonbigmat → p.2.rows < 65536) ∧
-    ∀ col ∈ p.2.cols, ∀ x ∈ col, ∀ b ∈ entryDs p.2.cplx x, Fits d b
+layout only below 65536 rows (every value fits its field since the repair of F3: `fits_all`) -/
+def MatOK (_d : Nat) (p : Layout × Mat) : Prop :=
+  WfA p.2 ∧ (p.1 = .nonbigmat → p.2.rows < 65536)
 
 theorem rdMatrixA_decOf (dformat : Bool) (d : Nat) (hd : 1 ≤ d) (hp : 1 ≤ perline d) (p : Layout × Mat)
     (hok : MatOK d p) (rest : List Str) :
     ∃ a, rdMatrixA dformat (matLines d p.1 p.2 ++ rest) = some (some (a, rest)) ∧ ADecOf d p a := by
-  obtain ⟨hwf, hnb, hfit⟩ := hok
-  obtain ⟨lay', auto, hm⟩ := rdMatrixA_enc dformat d hd hp p.1 p.2 hwf hnb hfit rest
+  obtain ⟨hwf, hnb⟩ := hok
+  obtain ⟨lay', auto, hm⟩ := rdMatrixA_enc dformat d hd hp p.1 p.2 hwf hnb (fun _ _ _ _ b _ => fits_all d b hd) rest
   exact ⟨_, hm, rfl, rfl, rfl, rfl, rfl, rfl, rfl, applyPutsA_recs d p.1 p.2.cplx p.2.rows p.2.cols hwf.cols_len⟩
 
 theorem matLines_ne_nil (d : Nat) (lay : Layout) (m : Mat) : 1 ≤ (matLines d lay m).length := by
